@@ -173,7 +173,11 @@ class Normalizer(object):
         return ('attr', self.n(e.value), e.attr)
 
     def n_Subscript(self, e):
-        return ('idx', self.n(e.value), self.n(e.slice))
+        b, i = self.n(e.value), self.n(e.slice)
+        if isinstance(b, tuple) and b and b[0] in ('list', 'tuple') and _is_num(i) and isinstance(i[1], int) \
+                and -len(b) + 1 <= i[1] < len(b) - 1:
+            return b[1:][i[1]]
+        return ('idx', b, i)
 
     def n_Slice(self, e):
         return ('slice',) + tuple(self.n(x) if x is not None else ('const', None)
@@ -407,3 +411,47 @@ def _n_Rebased(self, e):
 
 
 Normalizer.n__Rebased = _n_Rebased
+
+
+# ---------------------------------------------------------------------------
+# statement-level normal forms (for sibling blocks)
+
+def norm_block(stmts, env=None, keep_messages=False):
+    """Normal form of a statement list: structure + normal forms of the expressions.  Arguments of
+    raised exceptions (messages) are dropped unless keep_messages."""
+    N = Normalizer(env)
+
+    def st(s):
+        if isinstance(s, ast.If):
+            return ('if', N.n(s.test), blk(s.body), blk(s.orelse))
+        if isinstance(s, ast.Assign):
+            return ('assign', tuple(N.n(t) for t in s.targets), N.n(s.value))
+        if isinstance(s, ast.AugAssign):
+            return ('aug', type(s.op).__name__, N.n(s.target), N.n(s.value))
+        if isinstance(s, ast.Raise):
+            e = s.exc
+            if isinstance(e, ast.Call) and not keep_messages:
+                return ('raise', dotted(e.func))
+            return ('raise', N.n(e) if e is not None else None)
+        if isinstance(s, ast.Expr):
+            if isinstance(s.value, ast.Constant) and isinstance(s.value.value, str):
+                return None
+            return ('expr', N.n(s.value))
+        if isinstance(s, ast.Return):
+            return ('return', N.n(s.value) if s.value is not None else None)
+        if isinstance(s, ast.For):
+            return ('for', N.n(s.target), N.n(s.iter), blk(s.body), blk(s.orelse))
+        if isinstance(s, ast.While):
+            return ('while', N.n(s.test), blk(s.body), blk(s.orelse))
+        if isinstance(s, ast.Try):
+            return ('try', blk(s.body), tuple((dotted(h.type) if h.type is not None else None, blk(h.body))
+                                              for h in s.handlers), blk(s.orelse), blk(s.finalbody))
+        if isinstance(s, ast.Pass):
+            return None
+        if isinstance(s, (ast.Continue, ast.Break)):
+            return (type(s).__name__.lower(),)
+        return ('stmt', ast.dump(s))
+
+    def blk(ss):
+        return tuple(x for x in (st(s) for s in ss) if x is not None)
+    return blk(stmts)
